@@ -514,3 +514,36 @@ def flows_to_return(body, start_local, extra_calls=()):
                     taint.add(t["dest"]["l"])
                     changed = True
     return 0 in taint
+
+
+def capture_operand(P, body, name):
+    """(parent body, operand) stored in the captured variable `name` where the closure `body` is built; None if unknown"""
+    par = P.bodies.get(body.parent) if body.is_closure else None
+    if par is None:
+        return None
+    for blk in par.blocks:
+        for st in blk["stmts"]:
+            if st["k"] == "assign" and st["rv"]["k"] == "aggregate" and st["rv"].get("agg") == "closure" and \
+                    norm(st["rv"].get("closure")) == body.key:
+                for f in st["rv"]["fields"]:
+                    if f["name"] == name:
+                        return par, f["op"]
+    return None
+
+
+def roots_x(P, body, op, suffix=(), depth=0):
+    """prov() with captured variables resolved in the function that built the closure: [(body, root)]"""
+    out = []
+    for r in prov(body, op, suffix=tuple(suffix)):
+        if r.kind == "capture" and depth < 4:
+            co = capture_operand(P, body, r.name)
+            if co is not None:
+                out.extend(roots_x(P, co[0], co[1], r.fields, depth + 1))
+                continue
+        out.append((body, r))
+    return out
+
+
+def all_roots_x(P, body, op, pred):
+    rs = roots_x(P, body, op)
+    return bool(rs) and all(pred(r) for b2, r in rs)
